@@ -32,6 +32,13 @@ def run_check(prop, repo, tier="quick"):
     return r.returncode, r.stdout + r.stderr
 
 
+def drop_facts(repo):
+    sys.path.insert(0, VERIF)
+    from vlib import gen
+    th = gen.tree_hash(repo)
+    shutil.rmtree(os.path.join(VERIF, ".work", "facts", th), ignore_errors=True)
+
+
 def main():
     patch, prop = sys.argv[1], sys.argv[2]
     expect = None
@@ -41,6 +48,7 @@ def main():
     try:
         rc, out = run_check(prop, dst)
     finally:
+        drop_facts(dst)
         shutil.rmtree(dst, ignore_errors=True)
     print(out)
     detected = rc == 1 and "VIOLATION property=%s" % prop in out and (expect is None or expect in out)
